@@ -6,6 +6,7 @@
 package modifiers
 
 //@ func (m *NameModifier) Apply
+//@   implements flows.Modifier.Apply
 //@   requires m != nil && contact != nil && EngRep(eng) && eng.(*engine.engine).options.MaxFieldChars >= 0
 //@   assigns contact.name, effects(flows.EventCallback)
 //@   ensures [modified_iff_changed] result <==> contact.name != old(contact.name)
@@ -23,6 +24,7 @@ package modifiers
 //@   assert [second_reports_nothing] !r2
 
 //@ func (m *LanguageModifier) Apply
+//@   implements flows.Modifier.Apply
 //@   requires m != nil && contact != nil
 //@   assigns contact.language, effects(flows.EventCallback)
 //@   ensures [modified_iff_changed] result <==> contact.language != old(contact.language)
@@ -31,6 +33,7 @@ package modifiers
 //@   ensures [no_event] !result ==> ghost.evlog == old(ghost.evlog)
 
 //@ func (m *StatusModifier) Apply
+//@   implements flows.Modifier.Apply
 //@   requires m != nil && contact != nil
 //@   assigns contact.status, effects(flows.EventCallback)
 //@   ensures [modified_iff_changed] result <==> contact.status != old(contact.status)
@@ -39,6 +42,7 @@ package modifiers
 //@   ensures [no_event] !result ==> ghost.evlog == old(ghost.evlog)
 
 //@ func (m *TicketModifier) Apply
+//@   implements flows.Modifier.Apply
 //@   requires m != nil && contact != nil && m.topic != nil
 //@   assigns contact.ticket, effects(flows.EventCallback)
 //@   ensures [modified_iff_changed] result <==> contact.ticket != old(contact.ticket)
@@ -48,6 +52,7 @@ package modifiers
 
 // URNs: the raw URN list (urn text incl. channel affinity) is the caller-visible state
 //@ func (m *URNsModifier) Apply
+//@   implements flows.Modifier.Apply
 //@   uses urn_normalize_idem
 //@   requires m != nil && contact != nil
 //@   assigns contact.urns, effects(flows.EventCallback)
@@ -57,3 +62,50 @@ package modifiers
 //@ loop 1
 //@   invariant forall k int :: old(len(ghost.evlog)) <= k && k < len(ghost.evlog) ==> !typeis(ghost.evlog[k], *events.ContactURNsChangedEvent)
 //@   invariant len(ghost.evlog) >= old(len(ghost.evlog))
+
+// ---- C06: every effective modifier is followed by a re-evaluation of the query based groups; non-active
+// contacts leave all their groups; membership changes are announced by one contact_groups_changed event
+//@ func ReevaluateGroups
+//@   requires contactAssetsOK(contact) && groupsOK(contact.groups) && noDupUUIDs(contact.groups.groups)
+//@   assigns contact.groups.groups, effects(flows.EventCallback)
+//@   ensures [match_active] contact.status == flows.ContactStatusActive ==> groupsMatch(contact, env)
+//@   ensures [match] groupsMatch(contact, env)
+//@   ensures [non_active_no_groups] contact.status != flows.ContactStatusActive ==> len(contact.groups.groups) == 0
+//@   ensures [active_static_kept] contact.status == flows.ContactStatusActive ==> (forall u assets.GroupUUID :: (memberOf(contact.groups, u) != old(memberOf(contact.groups, u))) ==> (exists k int :: 0 <= k && k < len(contact.assets.(*engine.sessionAssets).groups.all) && contact.assets.(*engine.sessionAssets).groups.all[k].UsesQuery() && contact.assets.(*engine.sessionAssets).groups.all[k].UUID() == u))
+//@   checks [event_logged] (len(added) > 0 || len(removed) > 0) ==> (len(ghost.evlog) == old(len(ghost.evlog)) + 1 && typeis(last(ghost.evlog), *events.ContactGroupsChangedEvent))
+//@   checks [no_event] (len(added) == 0 && len(removed) == 0) ==> ghost.evlog == old(ghost.evlog)
+//@   checks [silent_only_if_unchanged] (len(added) == 0 && len(removed) == 0 && contact.status == flows.ContactStatusActive) ==> contact.groups.groups == old(contact.groups.groups)
+//@ loop 1
+//@   invariant groupsMatch(contact, env) && groupsOK(contact.groups)
+//@   invariant forall u assets.GroupUUID :: (memberOf(contact.groups, u) != old(memberOf(contact.groups, u))) ==> (exists k int :: 0 <= k && k < len(contact.assets.(*engine.sessionAssets).groups.all) && contact.assets.(*engine.sessionAssets).groups.all[k].UsesQuery() && contact.assets.(*engine.sessionAssets).groups.all[k].UUID() == u)
+//@   invariant ghost.evlog == old(ghost.evlog)
+
+//@ func Apply
+//@   requires contactAssetsOK(c) && groupsOK(c.groups) && noDupUUIDs(c.groups.groups) && !isnil(mod)
+//@   ensures [reevaluated] result ==> (groupsMatch(c, env) && (c.status != flows.ContactStatusActive ==> len(c.groups.groups) == 0))
+
+//@ func (m *TimezoneModifier) Apply
+//@   implements flows.Modifier.Apply
+//@   requires m != nil && contact != nil
+//@   assigns contact.timezone, effects(flows.EventCallback)
+//@   ensures [modified_iff_set] result ==> contact.timezone == m.timezone
+//@   ensures [unmodified] !result ==> contact.timezone == old(contact.timezone)
+//@   ensures [event] result ==> (len(ghost.evlog) == old(len(ghost.evlog)) + 1 && typeis(last(ghost.evlog), *events.ContactTimezoneChangedEvent))
+//@   ensures [no_event] !result ==> ghost.evlog == old(ghost.evlog)
+
+//@ func (m *ChannelModifier) Apply
+//@   implements flows.Modifier.Apply
+//@   requires m != nil && contact != nil
+
+//@ func (m *FieldModifier) Apply
+//@   implements flows.Modifier.Apply
+//@   requires m != nil && contact != nil && EngRep(eng) && eng.(*engine.engine).options.MaxFieldChars >= 0
+
+// groups: only static groups are added / removed, never twice
+//@ func (m *GroupsModifier) Apply
+//@   implements flows.Modifier.Apply
+//@   requires m != nil && contact != nil && (forall k int :: 0 <= k && k < len(m.groups) ==> m.groups[k] != nil)
+//@ loop 1
+//@   invariant contactAssetsOK(contact) && groupsOK(contact.groups) && noDupUUIDs(contact.groups.groups)
+//@ loop 2
+//@   invariant contactAssetsOK(contact) && groupsOK(contact.groups) && noDupUUIDs(contact.groups.groups)
